@@ -2,10 +2,14 @@ package props
 
 import (
 	"fmt"
+	"go/token"
+	"go/types"
 	"sort"
+	"strings"
 
 	"gedverif/internal/load"
 	"gedverif/internal/oblig"
+	"gedverif/internal/su"
 
 	"golang.org/x/tools/go/ssa"
 )
@@ -159,5 +163,92 @@ func c05ZeroTime(p *load.Prog, r *oblig.Run) {
 			key = fmt.Sprintf("%s #%d", key, seen[key])
 		}
 		r.Add("R05.d", key, f.pos, "receiver of time.Time.IsZero").Fail("a time computed from date components (" + f.src + ") is tested with IsZero in " + f.fn + ": 1 Jan 0001 00:00 UTC, the start of the valid date 1 Jan 0001 (and of Jan 0001 and of the year 0001), is the zero time, so that date is treated as missing or invalid")
+	}
+}
+
+// c05LeapRule (R05.f): the date code has no leap-year rule of its own that is the Julian one. Today the calendar
+// (month lengths, leap years) comes from package time alone; a function of the root package that takes the
+// remainder of a year by 4 - a year being the Year field of a Date, the result of time.Time.Year(), or an int
+// parameter named like a year - must take the remainders by 100 and by 400 of the same value as well. `year%4 == 0`
+// alone makes 1700, 1800, 1900, 2100 ... (75 of the 9,999 supported years) one day longer than they are.
+// The rule reads only which remainders are taken, not how they are combined.
+func c05LeapRule(p *load.Prog, r *oblig.Run) {
+	r.Rule("R05.f", "a function that takes a year modulo 4 also takes it modulo 100 and modulo 400 (no Julian leap rule in the date code)", 2)
+	isYear := func(v ssa.Value) bool {
+		for i := 0; i < 4; i++ {
+			switch x := v.(type) {
+			case *ssa.Convert:
+				v = x.X
+				continue
+			case *ssa.ChangeType:
+				v = x.X
+				continue
+			}
+			break
+		}
+		switch x := v.(type) {
+		case *ssa.Call:
+			cal := x.Call.StaticCallee()
+			return cal != nil && cal.Name() == "Year" && cal.Pkg != nil && cal.Pkg.Pkg.Path() == "time"
+		case *ssa.UnOp:
+			if fa, ok := x.X.(*ssa.FieldAddr); ok && x.Op == token.MUL {
+				return su.FieldName(fa) == "Year"
+			}
+		case *ssa.Field:
+			if st, ok := x.X.Type().Underlying().(*types.Struct); ok {
+				return st.Field(x.Field).Name() == "Year"
+			}
+		case *ssa.Parameter:
+			n := strings.ToLower(x.Name())
+			return n == "y" || strings.Contains(n, "year")
+		}
+		return false
+	}
+	scanned, found := 0, 0
+	for _, fn := range p.Repo {
+		if pkgPathOf(fn) != load.PkgRoot || len(fn.Blocks) == 0 {
+			continue
+		}
+		scanned++
+		rem := map[ssa.Value]map[int64]token.Pos{}
+		for _, b := range fn.Blocks {
+			for _, ins := range b.Instrs {
+				bo, ok := ins.(*ssa.BinOp)
+				if !ok || bo.Op != token.REM {
+					continue
+				}
+				k, isK := su.ConstInt(bo.Y)
+				if !isK {
+					continue
+				}
+				if rem[bo.X] == nil {
+					rem[bo.X] = map[int64]token.Pos{}
+				}
+				rem[bo.X][k] = bo.Pos()
+			}
+		}
+		for v, ks := range rem {
+			pos, has4 := ks[4]
+			if !has4 || !isYear(v) {
+				continue
+			}
+			found++
+			o := r.Add("R05.f", "leap rule in "+load.FuncName(fn), p.Pos(pos), "remainders taken of the year "+v.Name())
+			_, h100 := ks[100]
+			_, h400 := ks[400]
+			if h100 && h400 {
+				o.OK("the year is taken modulo 4, 100 and 400")
+			} else {
+				o.Fail("the year is taken modulo 4 but not modulo 100 and 400: century years that are not leap years (1700, 1800, 1900, 2100 ...) are given 366 days / a 29 February - their bounds and Years values leave the calendar")
+			}
+		}
+	}
+	for _, name := range []string{"Time", "Years"} {
+		m := p.Method(load.PkgRoot, "Date", name)
+		if m == nil {
+			r.Add("R05.f", "anchor Date."+name, "-", "anchor").Unknown("method not found")
+			continue
+		}
+		r.Add("R05.f", "calendar source of Date."+name, p.Pos(m.Pos()), "own leap rules in the root package").OK(fmt.Sprintf("%d functions scanned, %d take a year modulo 4 (each judged above)", scanned, found))
 	}
 }
